@@ -39,15 +39,22 @@ def main():
             jobs.append((W.QN + m, 'w:' + prev))
     jobs += [(reader_iter.NAME, 'it:' + v) for v in SP.NINE]
     chk.verify_parallel(build, jobs, timeout_s=30, procs=14)
+    # composition lemmas over the contracts (no code)
+    from contracts import lemmas_content
+    for oid, asserts, text in lemmas_content.lemmas():
+        chk.add_smt_obligation('lemma.' + oid, asserts, describe=text)
     chk.trusted += [
         'LEAVES proved here: writer content methods and _prepare_content '
         '(Prepare), _read_content / _process_content (Recover), '
         'iter_sections (framing, encoding scope); header round trip in C11, '
         'order agreement in C09/C10, chunking in C17, codec facts in C15',
         'The ROOT statement (records(read(write(calls))) == calls, for '
-        'every call sequence) is NOT machine-checked as one invariant: the '
-        'composition lemmas (indent/strip inverse, newline agreement, '
-        'append-missing-newline) are argued in DESIGN.md and exercised by '
+        'every call sequence) is NOT machine-checked as one invariant.  Of '
+        'the composition lemmas, the per-line indent/strip inverse '
+        '(lemma.indent_strip_inverse, with B7: a word of " "* consists of '
+        'spaces) is discharged here; that splitting the indented block '
+        'yields the indented lines, newline agreement and '
+        'append-missing-newline are argued in DESIGN.md and exercised by '
         'the bounded layer only',
         'A-codec: decode(encode(t)) == t for stateless codecs; A-json']
     state = {}
